@@ -345,8 +345,12 @@ class CallMixin:
             return self.report(name, "ok", text)
         import time
         if v is False:
-            model = self.p.solver.model() if self.p.check() == z3.sat else None
-            return self.report(name, "fail", text, model=model)
+            r = self.p.check()
+            if r == z3.sat:
+                return self.report(name, "fail", text, model=self.p.solver.model())
+            if r == z3.unsat:
+                return self.report(name, "ok", text, note="path infeasible")
+            return self.report(name, "unknown", text, note="clause false on a path whose feasibility is unknown: " + self.p.solver.reason_unknown())
         t0 = time.time()
         r = self.p.check(z3.Not(v.t))
         if r == z3.unsat:
